@@ -2,7 +2,7 @@
 //! program of the bounded grammar.
 //!
 //! S2 over programs x inputs, S5 between the two evaluators. Every program of
-//! P(d) is parsed once and run on each of the 18 inputs through
+//! P(d) is parsed once and run on each of the 19 inputs through
 //! `jq::eval::<_, JqSemantics>` and `jq::eval_generic::eval_with_cursor`; the
 //! observation is (outputs as JSON text, terminal in {end, error(message),
 //! break(label), halt(code)}). Lazy results are materialised through their public
@@ -14,11 +14,11 @@ use succinctly::jq::{self, Expr};
 
 #[path = "../jqgen.rs"]
 mod jqgen;
-use jqgen::{parse_json, run_full, run_generic, veq, veq_ordered, Obs, Term, V};
+use jqgen::{parse_json, run_full_doc, run_generic_doc, veq, veq_ordered, Doc, Obs, Term, V};
 
 // ------------------------------------------------------------ the grammar --
 
-const INPUTS: [&str; 18] = [
+const INPUTS: [&str; 19] = [
     "null",
     "true",
     "0",
@@ -37,6 +37,9 @@ const INPUTS: [&str; 18] = [
     "[1e17,-0,9007199254740993,0.1]",
     "[\"b\",\"a\",\"a\"]",
     "[{\"a\":2},{\"a\":1}]",
+    // added to the 18 inputs of the design: keys out of order (without it `keys` and `keys_unsorted`,
+    // sorted and unsorted object printing etc. are indistinguishable on every input)
+    "{\"b\":[1,2],\"a\":1}",
 ];
 
 /// Nullary builtins and path/literal atoms (space separated).
@@ -56,7 +59,7 @@ const COMPOSITE: &[&str] = &[
     "sort_by(.)", "group_by(.)", "unique_by(.)", "min_by(.)", "max_by(.)", "min_by(.a)", "max_by(.a)", "group_by(.a)", "unique_by(.a)", "sort_by(.a)", "sort_by(.a, .b)", "sort_by(-.)", "unique_by(length)",
     "any(.)", "all(.)", "any(.[];.)", "all(.[];.)", "any(not)", "flatten(1)", "flatten(0)", "flatten(-1)", "flatten(\"a\")", "add(.[])", "add(empty)",
     "pow(.;2)", "pow(2;.)", "atan2(.;1)", "drem(.;2)", "ldexp(.;2)", "scalb(.;2)", "fmin(.;1)", "fmax(.;1)", "fma(.;2;1)",
-    "walk(.)", "walk(if type == \"number\" then . + 1 else . end)", "recurse(.[]?)", "recurse(.a?)", "recurse(.[]?; . != null)", "bsearch(1)", "bsearch(\"a\")", "bsearch(null)",
+    "walk(.)", "walk(if type == \"number\" then . + 1 else . end)", "recurse(.[]?)", "recurse(.a?; . != null)", "recurse(.[]?; . != null)", "bsearch(1)", "bsearch(\"a\")", "bsearch(null)",
     "error(\"x\")", "error(null)", "error({})", "error(.)", "try error(.) catch .", "try error(\"x\") catch .", "try error catch .", "try error({a:1}) catch .a", "[.[]|try error(.) catch .]", "try error(\"\\(.)\") catch .", ".a?", "(.a)?", "[.[]|.+1]?", "try (.[] | error(\"e\")) catch .", "[(1, error(\"x\"), 3)]", "1, error(\"x\"), 3", "(1, error(\"x\"))?", "try (1, error(\"x\"), 3) catch .", "try error(\"x\")", ".[] | try error(.) catch .",
     "pick(.a)", "pick(.[0])", "pick(.a.b)", "truncate_stream(1;tostream)", "fromstream(tostream)", "[tostream]|fromstream(.[])", "tostream|tojson", "fromstream(1|truncate_stream(tostream))", "getpath(paths)", "[paths(..)]", "limit(3;paths)",
     ". + .", ". - .", ". * .", ". / .", ". % .", ". == .", ". != .", ". < .", ". <= .", ". > .", ". >= .", ". and .", ". or .", ". // 1", ". // empty", "empty // 1", "(.[]?) // 1", "(false, null, 2) // 3",
@@ -70,16 +73,21 @@ const COMPOSITE: &[&str] = &[
     "to_entries | from_entries", "tojson | fromjson", "tojson|fromjson|tojson", "tojson|length", "keys|length", "length|tostring", "ascii_downcase|ascii_upcase", "ltrimstr(\"a\")|rtrimstr(\"a\")", "trunc|tostring", "[.[]|tostring]", "[.[]|tojson]", "[.[]|type]", "map(select(.))", "[.[]|numbers]", "..|numbers", "[..|strings]", "[.[]?|length]", "map(length)", "map(type)", "map(keys)", "map(.a?)", "map(.[0]?)", "map(tostring)", "map(tojson)", "keys_unsorted|map(.)", "keys|map(.)", "keys_unsorted|length", "keys_unsorted|first", "keys_unsorted|.[0]", "keys|.[0]", "keys|last", "keys_unsorted|.[]", "map(.)|map(.)", "map(.+1)|map(.*2)", "map(error(\"m\"))", "map(., .)", "map(empty)", "map(select(. == 1))", "[.[]|.a?]",
     "(.a, .b)", ".[\"a\",\"b\"]?", ".[0,1]?", ".[\"a\"]?", ".[null]", ".[\"a\":]?", ".[1.5]?", ".[-5]?", ".[5]", ".[1e17]?", ".[:2.5]?", ".[null:2]?", ".[.[0]?]?", ".a.b.c?", ".a[1:]?", "..?", ".[]?.a?", ".[0][0]?", ".a[\"b\"]?",
     ".a = 1", ".a |= 2", ".[0] = 1", ".[] |= 1", ".a += 1", ".a -= 1", ".a *= 2", ".a /= 2", ".a %= 2", ".a //= 3", ".[0] += 1", ".[]? += 1", ".a.b = 1", ".a.b |= 1", ".[1:] = [9]", ".[5] = 1", ".[-1] = 9", ".[-9] = 9", ".a = (1, 2)", "(.a, .b) = 1", "(.a, .b) |= 1", ".[] |= empty", ".a |= empty", ".. = 1", ".. |= .", ".[0] |= . + 1", "(.[] | select(. == 2)) = 20", "(.[]? | select(type == \"number\")) |= . + 1", ".a = .b", ".a |= .b?", ". = 1", ". |= 2", "to_entries |= .", ".[\"a\"] = 1", "getpath([\"a\"]) = 3", "first(.[]?) = 7", "paths = 1", "(.a | .b) = 1", ".a[0] = 1", ".a[1:] = [5]", "del(.a, .b)", "del(.[0, 1])", "del(.a.b)", "del(..)", "del(.)", "del(.[]?|select(. == 1))", "del(.[-1])", "del(.a[0])", "delpaths([paths])", "delpaths([[]])", "to_entries",
-    "limit(3;repeat(.))", "[limit(3;repeat(.))]", "[limit(3;recurse)]", "first(repeat(.))", "[limit(2; range(infinite))]", "until(true;.)", "[while(false;.)]", "[limit(3; while(true; .))]", "[limit(3; until(false; .))]", "[limit(2; 1, 2, 3)]", "limit(1; error(\"x\"))", "limit(1; 1, error(\"x\"))", "first(1, error(\"x\"))", "[limit(3; repeat(1))]", "[limit(5; recurse(.[]?))]",
+    "#secondary",
+    "limit(3;repeat(.))", "[limit(3;repeat(.))]", "[limit(3;recurse)]", "first(repeat(.))", "until(true;.)", "[while(false;.)]", "[limit(3; while(true; .))]", "[limit(3; until(false; .))]", "[limit(2; 1, 2, 3)]", "limit(1; error(\"x\"))", "limit(1; 1, error(\"x\"))", "first(1, error(\"x\"))", "[limit(3; repeat(1))]", "[limit(5; recurse(.[]?))]",
     "ascii", "implode|explode", "explode|implode", "[1,2]|implode", "[65, 233, 128512]|implode", "[-1]|implode", "[1114112]|implode", "[55296]|implode", "\"a\"|explode", "tojson|explode|implode|fromjson", "\"x\" * 3", "\"x\" * 0", "\"x\" * -1", "\"abc\" | .[1:]", "\"a\u{e9}\u{1f600}\" | .[1:2]", "\"abc\" | .[0]?", "\"a,b\" / \",\"", "\"abc\" | test(\"b\")?", "\"\" | ascii_downcase", "[.[]?|ascii_downcase?]", "\"a\" | ltrimstr(\"a\", \"b\")", "\"1\" | tonumber", "\"x\" | tonumber?", "\"1e1000\" | tonumber", "\"nan\" | tonumber", "\" 1\" | tonumber?", "\"0x10\" | tonumber?", "[1, \"1\"] | map(tonumber)", "\"[1\" | fromjson?", "\"nan\" | fromjson", "\"{\\\"a\\\":1,\\\"a\\\":2}\" | fromjson", "\"1 2\" | fromjson?", "\"\" | fromjson?", "nan | tojson", "infinite | tojson", "-infinite | tostring", "[nan] | sort", "[nan, 1] | min", "nan < nan", "nan == nan", "[nan] == [nan]", "{\"a\":nan} | .a | isnan", "infinite | floor", "nan | floor?", "1e1000", "-1e1000", "1e-1000", "100000000000000000000", "9007199254740993", "9007199254740993 + 0", "9007199254740993 | tostring", "[9007199254740993] | tojson", "1.0", "1.10", "-0", "-0 | tostring", "0 * -1", "[-0] | tojson", "1e2", "1E+2", "0.1 + 0.2", "3 % 2", "-3 % 2", "5 % -2", "5.9 % 2.1", "1 % 0.4?", "(1,2) % (1,2)", "9223372036854775807 + 1", "-9223372036854775808 - 1", "9223372036854775807 * 2", "9223372036854775807 | . + 0", "-9223372036854775808 | abs", "-9223372036854775808 | length", "9223372036854775807 | tostring", "1e18 | tostring", "1e19 | tostring", "1e17 | tostring", "123456789012 | tostring", "1.5e300 * 1.5e300", "[1,2,3] | .[1e18]?", "[1,2,3] | .[-1e18]?", "[1,2,3] | .[1.7]", "[1,2,3] | .[-1.2]?", "[1,2,3] | .[1:1e18]", "[1,2,3] | .[-1e18:2]", "[1,2,3] | .[nan]?", "[1,2,3] | .[nan:2]?", "[1,2,3] | .[:nan]?", "[1,2,3] | has(nan)?", "[1,2,3] | has(-1)", "[1,2,3] | has(1.5)", "[1,2,3] | has(3)", "{\"a\":1} | has(\"a\", \"b\")", "[1,2,3] | del(.[0,2])", "[1,2,3] | del(.[1:])", "[1,2,3] | del(.[-1:])", "[1,2,3] | del(.[nan])?", "[1,2,3] | to_entries", "[1,2,3] | .[1:] = [\"x\"]", "[1,2,3] | .[2:1] = [\"x\"]", "[1,2,3] | .[1:] |= map(. * 2)", "[1,2,3] | .[-1:] = []", "[1,2,3] | .[10:] = [1]", "null | .[1:] = [1]", "null | .[2] = 1", "null | .a.b.c = 1", "null | .[\"a\"][0] = 1", "[1,2,3] | setpath([-1]; 9)", "[1,2,3] | setpath([-3]; 9)", "[1,2,3] | setpath([-4]; 9)?", "[1,2,3] | setpath([3]; 9)", "[1,2,3] | setpath([5]; 9)", "[1,2,3] | getpath([-1])", "[1,2,3] | getpath([-4])", "[1,2,3] | getpath([3])", "[1,2,3] | delpaths([[-1]])", "[1,2,3] | delpaths([[-4]])", "[1,2,3] | delpaths([[0],[1]])", "[1,2,3] | delpaths([[1],[0]])", "[[1,2],[3]] | delpaths([[0,0],[0]])", "{\"a\":[1,2]} | delpaths([[\"a\",0],[\"a\"]])", "{\"a\":1} | setpath([\"a\",\"b\"]; 1)?", "{\"a\":1} | setpath([0]; 1)?", "[1] | setpath([\"a\"]; 1)?", "{\"a\":null} | setpath([\"a\",\"b\"]; 1)", "{\"a\":null} | setpath([\"a\",0]; 1)", "{\"a\":1} | getpath([\"a\",\"b\"])?", "{\"a\":1} | getpath([\"b\",\"c\"])", "null | getpath([\"a\",0,\"b\"])", "{\"a\":1} | paths", "{\"a\":1} | path(.a[0]?)", "{\"a\":1} | path(.b)", "{\"a\":1} | [path(..)]", "[[1]] | path(.[0][0])", "[[1]] | path(.[0] | .[0])", "[[1]] | path(first(.[]))", "[1,2] | path(.[1:])", "[1,2] | path(.[-1])", "{\"a\":1} | path(getpath([\"a\",\"b\"]))", "{\"a\":1} | path(1)?", "{\"a\":1} | path(. + 1)?", "{\"a\":1} | path(if .a then .a else .b end)", "{\"a\":1} | path(.a // .b)", "{\"a\":null} | path(.a // .b)", "{\"a\":1} | path(.a, .b)", "{\"a\":[1]} | path(.a | select(.[0] == 1))", "{\"a\":1} | path(empty)", "{\"a\":1} | [paths(. == 1)]", "{\"a\":1} | path(recurse)", "{\"a\":1} | path(.. | select(type == \"number\"))", "{\"a\":1} | path(.a | . as $x | $x)?", "{\"a\":1} | path(.a | tostring)?", "{\"a\":{\"b\":1}} | path(.a | .b)", "{\"a\":{\"b\":1}} | to_entries", "{\"a\":{\"b\":1}} | with_entries(.key |= ascii_upcase)", "{\"a\":1} | with_entries(select(.value > 1))", "{\"a\":1} | with_entries(.value += 1)", "[{\"key\":\"a\",\"value\":1}] | from_entries", "[{\"k\":\"a\",\"v\":1}] | from_entries", "[{\"name\":\"a\",\"Value\":1}] | from_entries", "[{\"key\":1,\"value\":1}] | from_entries", "[{\"key\":null}] | from_entries", "[{\"key\":false}] | from_entries", "[{\"key\":true,\"value\":2}] | from_entries?", "[{\"value\":2}] | from_entries?", "[[\"a\",1]] | from_entries?", "[null] | from_entries?", "[{\"key\":\"a\",\"value\":1},{\"key\":\"a\",\"value\":2}] | from_entries",
     "[3,1,2] | sort", "[3,1,2] | sort_by(-.)", "[[2,1],[1,2],[1]] | sort", "[{\"b\":1},{\"a\":2},{\"a\":1,\"b\":0}] | sort", "[null,true,false,0,\"a\",[],{}] | sort", "[{},[],\"a\",0,false,true,null] | sort", "[1,1.0,1.5,\"1\"] | unique", "[[1],[1.0]] | unique", "[\"b\",\"a\",\"B\",\"\u{e9}\",\"aa\"] | sort", "[1,2,3,4] | group_by(. % 2)", "[1,2,3,4] | unique_by(. % 2)", "[{\"a\":1,\"b\":2},{\"a\":1,\"b\":1}] | sort_by(.a)", "[{\"a\":1,\"b\":2},{\"a\":1,\"b\":1}] | group_by(.a)", "[{\"a\":1,\"b\":2},{\"a\":1,\"b\":1}] | min_by(.a)", "[{\"a\":1,\"b\":2},{\"a\":1,\"b\":1}] | max_by(.a)", "[{\"a\":1,\"b\":2},{\"a\":1,\"b\":1}] | unique_by(.a)", "[] | min", "[] | max_by(.a)", "[] | add", "[[1],[2]] | add", "[\"a\",\"b\"] | add", "[{\"a\":1},{\"b\":2}] | add", "[1,null,2] | add", "[null] | add", "[1,\"a\"] | add?", "[[1,[2]],[[3]]] | flatten", "[[1,[2]],[[3]]] | flatten(1)", "[1,[2,[3,[4]]]] | flatten(2)", "[[1,2],[3,4]] | transpose", "[[1],[2,3]] | transpose", "[[],[1]] | transpose", "[1,[2]] | transpose?", "[[1,2],[3,4]] | combinations", "[[1,2],[]] | combinations", "[] | combinations", "[[1,2]] | combinations", "[0,1] | combinations(2)", "[1,2] | combinations(0)", "[[1,2],[3,4]] | [combinations] | length", "[1,2,3] | any(. > 2)", "[1,2,3] | all(. > 0)", "[] | any", "[] | all", "[null, 1] | any", "[true, false] | all", "[1,2,3] | IN(2)", "2 | IN(1,2,3)", "[1,2,3] | IN([1,2,3], [4])", "IN(.[]?; 1, 2)", "[1,2,3] | index(2)", "[1,2,1] | indices(1)", "[1,2,1,2] | indices([1,2])", "[1,2,1] | rindex(1)", "\"abcb\" | indices(\"b\")", "\"abcb\" | index(\"b\")", "\"abcb\" | rindex(\"b\")", "\"a\u{e9}b\u{e9}\" | indices(\"\u{e9}\")", "\"aaa\" | indices(\"aa\")", "[] | indices([])", "[1] | indices([])", "[1,2,3] | bsearch(2)", "[1,2,3] | bsearch(0)", "[1,2,3] | bsearch(4)", "[1,3] | bsearch(2)", "[] | bsearch(1)", "[3,1] | bsearch(1)", "[1,2,3] | inside([1,2,3,4])", "\"a\" | inside(\"abc\")", "{\"a\":1} | inside({\"a\":1,\"b\":2})", "[\"abc\"] | contains([\"b\"])", "{\"a\":[1,2]} | contains({\"a\":[1]})", "\"a\\u0000b\" | contains(\"b\")", "1 | contains(1)", "1 | contains(\"a\")?", "[1,[2]] | contains([[2]])", "\"abc\" | startswith(\"ab\")", "\"abc\" | startswith(1)?", "1 | startswith(\"a\")?", "\"abc\" | endswith(\"bc\")", "\"abc\" | ltrimstr(\"ab\")", "\"abc\" | rtrimstr(\"bc\")", "\"abc\" | rtrimstr(\"abc\")", "1 | ltrimstr(\"a\")", "\" a \" | trim", "\" a \" | ltrim", "\" a \" | rtrim", "1 | trim?", "\"\\u00a0a\" | trim", "\"a,b\" | split(\",\")", "\"abc\" | split(\"\")", "\"\" | split(\",\")", "\"\" | split(\"\")", "\"a,b\" | split(\",\"; null)?", "\"a,b\" | split(\", \")", "[\"a\",1,null,true] | join(\"-\")", "[] | join(\",\")", "[[1]] | join(\",\")?", "[\"a\"] | join(1)?", "[\"a\",\"b\"] | join(null)?", "\"abc\" | ascii_downcase", "\"ABC\u{c9}\" | ascii_downcase", "\"abc\u{e9}\" | ascii_upcase", "1 | ascii_downcase?", "\"abc\" | utf8bytelength", "\"\u{e9}\" | utf8bytelength", "[1] | utf8bytelength?", "\"\u{e9}\" | length", "\"\u{1f600}\" | length", "{\"a\":1,\"b\":2} | length", "null | length", "true | length?", "-1.5 | length", "\"abc\" | explode", "\"\u{1f600}\" | explode", "\"abc\" | @base64", "\"YWJj\" | @base64d", "\"YWJ\" | @base64d", "\"YQ==\" | @base64d", "\"YQ\" | @base64d", "\"!!!\" | @base64d?", "\"/w==\" | @base64d", "\"a b&c\" | @uri", "\"\u{e9}\" | @uri", "\"-_.~\" | @uri", "\"a%20b\" | @urid", "\"%zz\" | @urid?", "\"%e9\" | @urid?", "[1,\"a\",null,true] | @csv", "[1,\"a\\\"b\",null] | @csv", "[[1]] | @csv?", "[1,\"a\\tb\",null] | @tsv", "[\"a\\\\b\\n\\r\"] | @tsv", "[{}] | @tsv?", "\"<&>'\\\"\" | @html", "[1,\"a b\"] | @sh", "\"it's\" | @sh", "{} | @sh?", "[[1]] | @sh?", "1 | @text", "[1,\"a\"] | @text", "[1,\"a\"] | @json", "\"\\u007f\\u0000\\u001f\" | @json", "\"\\u007f\\u0000\\u001f\" | tojson", "\"\u{e9}\u{1f600}\" | tojson", "{\"a\":[1,2,{\"b\":null}]} | tojson", "{\"a\":[1,2,{\"b\":null}]} | tostring", "\"abc\" | tostring", "null | tostring", "1.0 | tostring", "1.5 | tojson", "[1.0, 1e2, 1e-5, 1.5e10] | tojson", "[1.0, 1e2, 1e-5, 1.5e10] | map(tostring)", "[1.0, 1e2, 1e-5, 1.5e10] | map(. + 0)", "1e-5 | . * 1", "0.00001 | tostring", "1e-7 | . + 0 | tostring", "123456789012345678 | . + 0", "1.7976931348623157e308 | . * 10 | tostring", "3.0 | floor | tostring", "3.7 | trunc", "-3.7 | trunc", "-3.5 | round", "2.5 | round", "-0.5 | round | tostring", "-0.5 | ceil | tostring", "4 | sqrt", "-1 | sqrt | isnan", "0 | log", "-1 | log | isnan", "8 | log2", "1000 | log10", "2 | exp10", "3 | exp2", "[2, 10] | pow(.[0]; .[1])", "pow(0; 0)", "pow(-8; 1/3) | isnan", "pow(2; 0.5)", "1 | atan2(.; 0)", "0 | significand", "8 | significand", "8 | logb", "0 | logb", "8 | frexp", "0 | frexp", "3.5 | modf", "-3.5 | modf", "infinite | modf", "5 | gamma", "5 | lgamma", "5 | tgamma", "5 | lgamma_r", "2.5 | nearbyint", "3.5 | rint", "1.5 | trunc", "7 | drem(.; 2)", "5 | ldexp(.; 2)", "5 | scalb(.; 2)", "5 | scalbln(.; 2)", "1 | cbrt", "8 | cbrt", "10 | floor | . / 3", "10 / 3 | floor", "1 / 3", "1 / 3 | . * 3", "7 / 2", "6 / 2", "6 / 2 | tostring", "[.[]? | numbers | . / 2]", "[.[]? | numbers | . * 1.0]", "[.[]? | numbers | floor]", "[.[]? | numbers | tostring]", "[.[]? | numbers | tojson]", "[.[]? | numbers | . + 0]", "[.[]? | numbers | -(.)]", "[.[]? | numbers | . == 0]", "[.[]? | numbers] | sort", "[.[]? | numbers] | unique", "[.[]? | numbers] | min", "[.[]? | numbers] | add", "[.[]? | numbers | abs]", "[.[]? | numbers | length]", "[.[]? | numbers | round]", "[.[]? | numbers | @text]", "[.[]? | numbers | @json]", "[.[]? | numbers] | @csv", "[.[]? | numbers] | join(\",\")", "[.[]? | numbers | [.] | implode?]", "[.[]? | numbers | . % 7]?", "[.[]? | numbers | 7 % .]?", "[.[]? | numbers | isnormal]", "[.[]? | numbers | isinfinite]", "[.[]? | numbers | significand]", "[.[]? | numbers | trunc]", "[.[]? | numbers | sqrt | isnan]", "[.[]? | numbers | todate?]", "[.[]? | numbers | gmtime?]", "[.[]? | numbers | toboolean?]", "[.[]? | tostring | tonumber?]", "[.[]? | tojson | fromjson]",
     "1700000000 | todate", "1700000000 | gmtime", "1700000000.5 | gmtime", "1700000000 | gmtime | todate", "1700000000 | todateiso8601", "\"2023-11-14T22:13:20Z\" | fromdate", "\"2023-11-14T22:13:20Z\" | fromdateiso8601", "\"2023-11-14\" | fromdate?", "1700000000 | strftime(\"%Y-%m-%dT%H:%M:%SZ\")", "1700000000 | strftime(\"%A %B %j %e\")", "[2023,10,14,22,13,20,2,317] | todate", "[2023,10,14,22,13,20.5,2,317] | strftime(\"%S\")", "\"x\" | todate?", "-1 | todate", "1e12 | todate?", "253402300800 | todate?", "1700000000 | dateadd(\"seconds\"; 1)?", "1700000000 | date?", "1700000000 | todate | fromdate",
     "splits(\",\")", "[splits(\"a\")]", "splits(\"a\";\"g\")", "test(\"a\")", "test(\"A\";\"i\")", "test(\"a\";\"x\")", "test(\"(\")?", "[match(\"a\")]", "[match(\"a\";\"g\")]", "[match(\"\";\"g\")]", "match(\"(a)(b)?\")", "[match([\"a\",\"g\"])]", "capture(\"(?<x>a)\")", "[capture(\"(?<x>a)\";\"g\")]", "[scan(\"a\")]", "[scan(\"(a)(,)\")]", "scan(\"A\";\"i\")", "sub(\"a\";\"b\")", "sub(\"(?<x>a)\";\"\\(.x)\\(.x)\")", "gsub(\"a\";\"b\")", "gsub(\"\";\"-\")", "gsub(\"a\";\"b\";\"i\")", "sub(\"a\";\"b\";\"g\")", "gsub(\"(?<l>[a-z])\";\"\\(.l|ascii_upcase)\")", "sub(\"a\";\"x\",\"y\")", "[gsub(\"a\";\"x\",\"y\")]", "split(\",\";\"g\")", "split(\"a|,\";null)", "ascii_downcase | test(\"a\")", "\"aXbxc\" | [splits(\"x\";\"i\")]", "\"abc\" | [match(\"b\").offset]", "\"a\u{e9}b\" | [match(\"b\").offset]", "\"aaa\" | [match(\"a*?\";\"g\").length]", "\"abc\" | sub(\"(?<x>b)\";\"[\\(.x)]\")", "\"abc\" | gsub(\"\";\"-\")", "\"abc\" | gsub(\"$\";\"!\")", "\"abc\" | gsub(\"^\";\"!\")", "\"abAB\" | gsub(\"a\";\"x\";\"gi\")", "\"test\" | test(\"T\";\"ix\")", "\"a.b\" | split(\".\";null)", "\"a1b22\" | [scan(\"[0-9]+\")]", "\"a1b22\" | [scan(\"([a-z])([0-9]+)\")]", "\"xyz\" | capture(\"(?<a>x)(?<n>q)?\")", "\"xyz\" | [match(\"(?<a>x)(q)?\").captures[].string]", "\"abc\" | test(\"B\";null)", "\"abc\" | test([\"B\",\"i\"])", "\"abc\" | test(\"b\";\"q\")?", "1 | test(\"a\")?", "\"a\" | test(1)?",
-    "ltrimstr(\"a\") | ascii_upcase", "getpath([\"a\"]) | type", "tojson | test(\"1\")", "tostream | select(length == 2)", "[tostream] | length", "[tostream | select(length == 2) | .[0] | join(\".\")?]", "tojsonstream?", "[., 1] | tojsonstream?", "fromjsonstream?", "input_filename", "$__prog_args?", "get_search_list?", "splits", "ltrimstr", "error(\"\\(.)\") | .", "getpath([]) | .", "env.HOME | type", "have_literal_numbers", "have_decnum", "@base32d?", "abs", "toarray", "halt_error(1)?", "builtins | length > 0", "input_line_number | type", "\"\\(1;2)\"?", "ascii(65)?", "now | type", "localtime | type", "mktime?", "gmtime | mktime", "strptime(\"%Y\")?", "\"2023\" | strptime(\"%Y\") | type", "\"2023-11-14T22:13:20Z\" | strptime(\"%Y-%m-%dT%H:%M:%SZ\")", "\"2023-11-14T22:13:20Z\" | strptime(\"%Y-%m-%dT%H:%M:%SZ\") | mktime", "1700000000 | strflocaltime(\"%H\")", "1700000000 | localtime | mktime", "$ENV | type", "env | type", "$ENV.PATH | type", "input", "[inputs]", "first(inputs)?", "debug", "debug(\"m\")", "stderr", "halt", "halt_error", "\"bye\" | halt_error(3)", "$__loc__", "$__loc__.line", "input_line_number", "strenv(HOME)?", "ltrimstr(env.HOME)?", "now - now", "now | floor | type", "mktime", "localtime", "strflocaltime(\"%Y\")?", "todate | strptime(\"%Y-%m-%dT%H:%M:%SZ\") | mktime",
+    "ltrimstr(\"a\") | ascii_upcase", "getpath([\"a\"]) | type", "tojson | test(\"1\")", "tostream | select(length == 2)", "[tostream] | length", "[tostream | select(length == 2) | .[0] | join(\".\")?]", "tojsonstream?", "[., 1] | tojsonstream?", "fromjsonstream?", "input_filename", "$__prog_args?", "get_search_list?", "splits", "ltrimstr", "error(\"\\(.)\") | .", "getpath([]) | .", "env.HOME | type", "have_literal_numbers", "have_decnum", "@base32d?", "abs", "toarray", "builtins | length > 0", "input_line_number | type", "\"\\(1;2)\"?", "ascii(65)?", "now | type", "localtime | type", "mktime?", "gmtime | mktime", "strptime(\"%Y\")?", "\"2023\" | strptime(\"%Y\") | type", "\"2023-11-14T22:13:20Z\" | strptime(\"%Y-%m-%dT%H:%M:%SZ\")", "\"2023-11-14T22:13:20Z\" | strptime(\"%Y-%m-%dT%H:%M:%SZ\") | mktime", "1700000000 | strflocaltime(\"%H\")", "1700000000 | localtime | mktime", "$ENV | type", "env | type", "$ENV.PATH | type", "input", "[inputs]", "first(inputs)?", "halt", "$__loc__", "$__loc__.line", "input_line_number", "strenv(HOME)?", "ltrimstr(env.HOME)?", "now - now", "now | floor | type", "mktime", "localtime", "strflocaltime(\"%Y\")?", "todate | strptime(\"%Y-%m-%dT%H:%M:%SZ\") | mktime",
 ];
 
 /// Substrings that make a base term environment dependent (observed, not judged).
 const ENV_MARKERS: [&str; 17] = ["input", "now", "env", "$ENV", "debug", "stderr", "halt", "$__loc__", "localtime", "mktime", "strptime", "strflocaltime", "get_search_list", "$__prog_args", "builtins", "strenv", "have_"];
+
+/// Judged at depth 1 only: unbounded generators under limit/first that both evaluators run
+/// eagerly up to an internal cap (20-400 ms per evaluation) — too slow to compose.
+const SOLO: [&str; 6] = ["[limit(3; while(true; .))]", "[limit(3; until(false; .))]", "first(repeat(.))", "limit(3;repeat(.))", "[limit(3;repeat(.))]", "[limit(3; repeat(1))]"];
 
 /// Core terms for depth 3 (cheap, no blow-up under triple composition).
 const CORE: &[&str] = &[
@@ -122,7 +130,14 @@ enum P {
 
 struct Grammar {
     base: Vec<String>,
+    /// environment dependent: observed at depth 1, never judged
     env: Vec<bool>,
+    /// judged at depth 1 only
+    solo: Vec<bool>,
+    /// ignores its input (starts with a literal): never used as the right side of a pipe
+    literal_fed: Vec<bool>,
+    /// primary terms (quick-tier pipes)
+    primary: Vec<bool>,
     core: Vec<u32>,
 }
 
@@ -130,50 +145,12 @@ fn is_env(t: &str) -> bool {
     ENV_MARKERS.iter().any(|m| t.contains(m))
 }
 
-impl Grammar {
-    fn new() -> Grammar {
-        let mut base: Vec<String> = NULLARY.split(' ').filter(|s| !s.is_empty()).map(|s| s.to_string()).collect();
-        for c in COMPOSITE {
-            if !base.iter().any(|b| b == c) {
-                base.push(c.to_string());
-            }
-        }
-        let env = base.iter().map(|t| is_env(t)).collect();
-        let core = CORE.iter().map(|c| base.iter().position(|b| b == c).unwrap_or_else(|| panic!("core term {c} not in base")) as u32).collect();
-        Grammar { base, env, core }
-    }
-    fn text(&self, p: &P) -> String {
-        match p {
-            P::B(i) => self.base[*i as usize].clone(),
-            P::Pipe(a, b) => format!("{} | {}", self.text(a), self.text(b)),
-            P::Ctx(c, a) => CONTEXTS[*c as usize].0.replace("{}", &self.text(a)),
-        }
-    }
-    fn has_env(&self, p: &P) -> bool {
-        match p {
-            P::B(i) => self.env[*i as usize],
-            P::Pipe(a, b) => self.has_env(a) || self.has_env(b),
-            P::Ctx(_, a) => self.has_env(a),
-        }
-    }
-    /// Name of a (minimal) sub-program for signatures: the builtin / operator, never an input.
-    fn head(&self, p: &P) -> String {
-        match p {
-            P::B(i) => head_of(&self.base[*i as usize]),
-            P::Pipe(a, b) => format!("pipe({}|{})", self.head(a), self.head(b)),
-            P::Ctx(c, a) => format!("{}({})", CONTEXTS[*c as usize].1, self.head(a)),
-        }
-    }
-}
-
-/// Head of a base term: the last builtin-like identifier applied at top level, or the
-/// operator skeleton when the term is built from `.`-paths and operators only.
-fn head_of(t: &str) -> String {
-    // literal-input terms "LIT | f": the head is that of f
+/// Does the first top-level pipe segment consist of a literal only?
+fn is_literal_fed(t: &str) -> bool {
     let mut depth = 0i32;
     let mut in_str = false;
     let b = t.as_bytes();
-    let mut last_pipe = None;
+    let mut seg_end = None;
     let mut i = 0;
     while i < b.len() {
         let c = b[i];
@@ -188,15 +165,172 @@ fn head_of(t: &str) -> String {
                 b'"' => in_str = true,
                 b'(' | b'[' | b'{' => depth += 1,
                 b')' | b']' | b'}' => depth -= 1,
-                b'|' if depth == 0 && b.get(i + 1) != Some(&b'=') => last_pipe = Some(i),
+                b'|' if depth == 0 && b.get(i + 1) != Some(&b'=') => {
+                    seg_end = Some(i);
+                    break;
+                }
                 _ => {}
             }
         }
         i += 1;
     }
-    let tail = match last_pipe {
-        Some(i) => t[i + 1..].trim(),
-        None => t.trim(),
+    let Some(e) = seg_end else { return false };
+    // strip strings
+    let mut seg = String::new();
+    let mut in_str = false;
+    let sb = &b[..e];
+    let mut i = 0;
+    while i < sb.len() {
+        let c = sb[i];
+        if in_str {
+            if c == b'\\' {
+                i += 1;
+            } else if c == b'"' {
+                in_str = false;
+            }
+        } else if c == b'"' {
+            in_str = true;
+            seg.push('S');
+        } else {
+            seg.push(c as char);
+        }
+        i += 1;
+    }
+    if seg.contains("\\(") {
+        return false;
+    }
+    let mut seg = seg;
+    for w in ["-infinite", "infinite", "null", "true", "false", "nan"] {
+        seg = seg.replace(w, "0");
+    }
+    let sb = seg.as_bytes();
+    sb.iter().enumerate().all(|(i, &c)| match c {
+        b'.' => i > 0 && sb[i - 1].is_ascii_digit() && sb.get(i + 1).map_or(false, |d| d.is_ascii_digit()),
+        b'[' | b']' | b'{' | b'}' | b',' | b':' | b' ' | b'e' | b'E' | b'+' | b'-' | b'S' => true,
+        c => c.is_ascii_digit(),
+    })
+}
+
+impl Grammar {
+    fn new() -> Grammar {
+        let mut base: Vec<String> = NULLARY.split(' ').filter(|s| !s.is_empty()).map(|s| s.to_string()).collect();
+        let mut nprimary = 0;
+        for c in COMPOSITE {
+            if *c == "#secondary" {
+                nprimary = base.len();
+                continue;
+            }
+            if !base.iter().any(|b| b == c) {
+                base.push(c.to_string());
+            }
+        }
+        for c in CORE {
+            if !base.iter().any(|b| b == c) {
+                base.push(c.to_string());
+            }
+        }
+        let env: Vec<bool> = base.iter().map(|t| is_env(t)).collect();
+        let solo: Vec<bool> = base.iter().map(|t| SOLO.contains(&t.as_str())).collect();
+        let literal_fed: Vec<bool> = base.iter().map(|t| is_literal_fed(t)).collect();
+        let primary: Vec<bool> = (0..base.len()).map(|i| i < nprimary && !env[i] && !solo[i] && !literal_fed[i]).collect();
+        let core = CORE.iter().map(|c| base.iter().position(|b| b == c).unwrap_or_else(|| panic!("core term {c} not in base")) as u32).collect();
+        Grammar { base, env, solo, literal_fed, primary, core }
+    }
+    fn text(&self, p: &P) -> String {
+        match p {
+            P::B(i) => self.base[*i as usize].clone(),
+            P::Pipe(a, b) => format!("{} | {}", self.text(a), self.text(b)),
+            P::Ctx(c, a) => CONTEXTS[*c as usize].0.replace("{}", &self.text(a)),
+        }
+    }
+    fn to_json(&self, p: &P) -> Value {
+        match p {
+            P::B(i) => json!({"b": self.base[*i as usize]}),
+            P::Pipe(a, b) => json!({"pipe": [self.to_json(a), self.to_json(b)]}),
+            P::Ctx(c, a) => json!({"ctx": CONTEXTS[*c as usize].1, "of": self.to_json(a)}),
+        }
+    }
+    fn from_json(&self, v: &Value) -> Option<P> {
+        if let Some(t) = v.get("b").and_then(|t| t.as_str()) {
+            return self.base.iter().position(|b| b == t).map(|i| P::B(i as u32));
+        }
+        if let Some(a) = v.get("pipe").and_then(|a| a.as_array()) {
+            return Some(P::Pipe(Box::new(self.from_json(&a[0])?), Box::new(self.from_json(&a[1])?)));
+        }
+        let name = v.get("ctx")?.as_str()?;
+        let c = CONTEXTS.iter().position(|c| c.1 == name)?;
+        Some(P::Ctx(c as u8, Box::new(self.from_json(v.get("of")?)?)))
+    }
+    fn has_env(&self, p: &P) -> bool {
+        match p {
+            P::B(i) => self.env[*i as usize],
+            P::Pipe(a, b) => self.has_env(a) || self.has_env(b),
+            P::Ctx(_, a) => self.has_env(a),
+        }
+    }
+    /// Name of a (minimal) sub-program for signatures: the builtin / operator, never an input.
+    /// A pipe that only fails as a whole is named by its interface — the last stage of the
+    /// left side and the first stage of the right side — so `map(f) | first` has one name
+    /// for every f.
+    fn head(&self, p: &P) -> String {
+        match p {
+            P::B(i) => head_of(&self.base[*i as usize], true),
+            P::Pipe(a, b) => format!("pipe({}|{})", self.stage_head(a, true), self.stage_head(b, false)),
+            P::Ctx(c, a) => format!("{}({})", CONTEXTS[*c as usize].1, self.stage_head(a, true)),
+        }
+    }
+    /// Head of the last (`last == true`) or first pipe stage of `p`; contexts that pass
+    /// their values through unchanged are looked through.
+    fn stage_head(&self, p: &P, last: bool) -> String {
+        match p {
+            P::B(i) => head_of(&self.base[*i as usize], last),
+            P::Pipe(a, b) => self.stage_head(if last { b } else { a }, last),
+            P::Ctx(c, a) => {
+                let name = CONTEXTS[*c as usize].1;
+                if matches!(name, "optional" | "try-catch" | "first" | "alternative") {
+                    self.stage_head(a, last)
+                } else {
+                    name.to_string()
+                }
+            }
+        }
+    }
+}
+
+/// Head of a base term: the last builtin-like identifier applied at top level, or the
+/// operator skeleton when the term is built from `.`-paths and operators only.
+fn head_of(t: &str, last: bool) -> String {
+    // split at top-level pipes; take the last or the first stage
+    let mut depth = 0i32;
+    let mut in_str = false;
+    let b = t.as_bytes();
+    let mut pipes: Vec<usize> = Vec::new();
+    let mut i = 0;
+    while i < b.len() {
+        let c = b[i];
+        if in_str {
+            if c == b'\\' {
+                i += 1;
+            } else if c == b'"' {
+                in_str = false;
+            }
+        } else {
+            match c {
+                b'"' => in_str = true,
+                b'(' | b'[' | b'{' => depth += 1,
+                b')' | b']' | b'}' => depth -= 1,
+                b'|' if depth == 0 && b.get(i + 1) != Some(&b'=') => pipes.push(i),
+                _ => {}
+            }
+        }
+        i += 1;
+    }
+    let tail = if pipes.is_empty() {
+        t.trim()
+    } else if last {
+        t[pipes[pipes.len() - 1] + 1..].trim()
+    } else {
+        t[..pipes[0]].trim()
     };
     // first identifier (with @ or $ prefix) outside strings
     let tb = tail.as_bytes();
@@ -273,15 +407,25 @@ fn head_of(t: &str) -> String {
 fn programs(g: &Grammar, ctx: &Ctx) -> Vec<P> {
     let n = g.base.len() as u32;
     let mut out: Vec<P> = (0..n).map(P::B).collect();
-    let judged: Vec<u32> = (0..n).filter(|&i| !g.env[i as usize]).collect();
-    // depth 2: unary contexts and all pipes over the judged base terms
+    let judged: Vec<u32> = (0..n).filter(|&i| !g.env[i as usize] && !g.solo[i as usize]).collect();
+    if std::env::var("C23_DEPTH1").is_ok() {
+        return out;
+    }
+    // depth 2: every unary context around every judged base term
     for &a in &judged {
         for c in 0..CONTEXTS.len() as u8 {
             out.push(P::Ctx(c, Box::new(P::B(a))));
         }
     }
-    for &a in &judged {
-        for &b in &judged {
+    // depth 2 pipes: quick = primary x primary; thorough = every judged term x every judged term that reads its input
+    let (left, right): (Vec<u32>, Vec<u32>) = if ctx.quick() {
+        let p: Vec<u32> = judged.iter().copied().filter(|&i| g.primary[i as usize]).collect();
+        (p.clone(), p)
+    } else {
+        (judged.clone(), judged.iter().copied().filter(|&i| !g.literal_fed[i as usize]).collect())
+    };
+    for &a in &left {
+        for &b in &right {
             out.push(P::Pipe(Box::new(P::B(a)), Box::new(P::B(b))));
         }
     }
@@ -358,34 +502,48 @@ enum Run {
     Panic(String),
 }
 
+thread_local! {
+    /// the inputs, indexed once per worker thread
+    static DOCS: Vec<Doc> = INPUTS.iter().map(|t| Doc::new(t.as_bytes())).collect();
+}
+
+fn with_doc<R>(input: &[u8], f: impl FnOnce(&Doc) -> R) -> R {
+    match INPUTS.iter().position(|t| t.as_bytes() == input) {
+        Some(i) => DOCS.with(|d| f(&d[i])),
+        None => f(&Doc::new(input)),
+    }
+}
+
 fn run_both(e: &Expr, input: &[u8]) -> (Run, Run) {
-    let f = match catch(|| run_full(input, e)) {
-        Ok(o) => Run::Ok(o),
-        Err(m) => Run::Panic(m),
-    };
-    let g = match catch(|| run_generic(input, e)) {
-        Ok(o) => Run::Ok(o),
-        Err(m) => Run::Panic(m),
-    };
-    (f, g)
+    with_doc(input, |d| {
+        let f = match catch(|| run_full_doc(d, e)) {
+            Ok(o) => Run::Ok(o),
+            Err(m) => Run::Panic(m),
+        };
+        let g = match catch(|| run_generic_doc(d, e)) {
+            Ok(o) => Run::Ok(o),
+            Err(m) => Run::Panic(m),
+        };
+        (f, g)
+    })
 }
 
 /// Verdict on one (program, input) pair.
 enum Verdict {
-    Agree,
+    Agree(Obs),
     Presentation(&'static str),
-    BothPanic,
+    BothPanic(String),
     Disagree(String, Run, Run),
 }
 
 fn judge(e: &Expr, input: &[u8]) -> Verdict {
     match run_both(e, input) {
         (Run::Ok(f), Run::Ok(g)) => match compare(&f, &g) {
-            Cmp::Same => Verdict::Agree,
+            Cmp::Same => Verdict::Agree(f),
             Cmp::Presentation(k) => Verdict::Presentation(k),
             Cmp::Differ(k) => Verdict::Disagree(k, Run::Ok(f), Run::Ok(g)),
         },
-        (Run::Panic(a), Run::Panic(b)) if a == b => Verdict::BothPanic,
+        (Run::Panic(a), Run::Panic(b)) if a == b => Verdict::BothPanic(a),
         (f, g) => {
             let k = match (&f, &g) {
                 (Run::Panic(_), Run::Ok(_)) => "panic:full-only",
@@ -407,7 +565,7 @@ fn disagrees(g: &Grammar, p: &P, input: &str) -> bool {
 /// Outputs of the full evaluator (used only where both evaluators agree).
 fn outputs(g: &Grammar, p: &P, input: &str) -> Vec<String> {
     match jq::parse(&g.text(p)) {
-        Ok(e) => match catch(|| run_full(input.as_bytes(), &e)) {
+        Ok(e) => match catch(|| with_doc(input.as_bytes(), |d| run_full_doc(d, &e))) {
             Ok(o) => o.outs,
             Err(_) => vec![],
         },
@@ -455,39 +613,65 @@ fn attribute(g: &Grammar, p: &P, input: &str, fuel: u32) -> (P, String) {
     }
 }
 
-fn input_class(v: &V) -> &'static str {
-    v.type_name()
+/// Builtins whose natural input is an array / a string / a number: for these the
+/// signature says whether the (minimal) input was inside that domain.
+const ARRAY_DOMAIN: [&str; 26] = ["reverse", "sort", "sort_by", "group_by", "unique", "unique_by", "min", "max", "min_by", "max_by", "flatten", "add", "any", "all", "transpose", "join", "first", "last", "nth", "implode", "from_entries", "combinations", "bsearch", "tojsonstream", "IN", "toarray"];
+const STRING_DOMAIN: [&str; 24] = ["ascii_downcase", "ascii_upcase", "ltrimstr", "rtrimstr", "trimstr", "startswith", "endswith", "ltrim", "rtrim", "trim", "explode", "split", "splits", "test", "match", "capture", "scan", "sub", "gsub", "fromjson", "tonumber", "fromdate", "fromdateiso8601", "utf8bytelength"];
+const NUMBER_DOMAIN: [&str; 12] = ["floor", "ceil", "round", "sqrt", "fabs", "abs", "trunc", "pow", "log", "exp", "todate", "gmtime"];
+
+fn input_class(head: &str, v: &V) -> &'static str {
+    let t = v.type_name();
+    if ARRAY_DOMAIN.contains(&head) {
+        return if t == "array" { "array" } else { "non-array" };
+    }
+    if STRING_DOMAIN.contains(&head) {
+        return if t == "string" { "string" } else { "non-string" };
+    }
+    if NUMBER_DOMAIN.contains(&head) {
+        return if t == "number" { "number" } else { "non-number" };
+    }
+    match v {
+        V::Null => "null",
+        V::Arr(_) | V::Obj(_) => "container",
+        _ => "scalar",
+    }
 }
 
-/// Signature of a disagreement of program `p` on `input`.
+fn kind_of(g: &Grammar, p: &P, input: &str) -> Option<String> {
+    match jq::parse(&g.text(p)) {
+        Ok(e) => match judge(&e, input.as_bytes()) {
+            Verdict::Disagree(k, _, _) => Some(k),
+            _ => None,
+        },
+        Err(_) => None,
+    }
+}
+
+/// Signature of a disagreement of program `p` on `input`:
+/// 1. attribute it to the minimal sub-program m on the input y that m receives;
+/// 2. if y holds an object with duplicate keys and m agrees once the duplicates are
+///    collapsed the way a JSON reader does (first position, last value), the raw
+///    duplicate-key view is the cause: `dup-key-object:<what differs>`;
+/// 3. otherwise `<head of m>:<class of y>:<what differs>`.
 fn signature(g: &Grammar, p: &P, input: &str, kind: &str) -> (String, P, String) {
-    // 1. is a duplicate-key object in the raw input the cause? (the disagreement
-    //    disappears when the duplicates are collapsed the way jq's parser does)
-    if let Ok(v) = parse_json(input) {
-        if v.has_dup_keys() {
-            let norm = v.dedup_keys().to_json();
-            if !disagrees(g, p, &norm) {
-                let what = kind.split(':').next().unwrap_or(kind).to_string();
-                let what = if what == "terminal" || what == "error-message-differs" { "terminal".to_string() } else { what };
-                return (format!("dup-key-object:{what}"), p.clone(), input.to_string());
-            }
+    let (m, y) = attribute(g, p, input, 8);
+    let kind2 = if &m == p && y == input { kind.to_string() } else { kind_of(g, &m, &y).unwrap_or_else(|| kind.to_string()) };
+    let yv = parse_json(&y);
+    if let Ok(v) = &yv {
+        if v.has_dup_keys() && !disagrees(g, &m, &v.dedup_keys().to_json()) {
+            let what = match kind2.split(':').next().unwrap_or("") {
+                "output-count" => "output-count",
+                "output-value" => "output-value",
+                "output-not-json" => "output-not-json",
+                k if k.starts_with("panic") => "panic",
+                _ => "terminal",
+            };
+            return (format!("dup-key-object:{what}"), m, y);
         }
     }
-    // 2. minimal sub-program
-    let (m, y) = attribute(g, p, input, 8);
-    let kind2 = if &m == p && y == input {
-        kind.to_string()
-    } else {
-        match jq::parse(&g.text(&m)) {
-            Ok(e) => match judge(&e, y.as_bytes()) {
-                Verdict::Disagree(k, _, _) => k,
-                _ => kind.to_string(),
-            },
-            Err(_) => kind.to_string(),
-        }
-    };
-    let cls = parse_json(&y).map(|v| input_class(&v)).unwrap_or("unparsable");
-    (format!("{}:{}:{}", g.head(&m), cls, kind2), m, y)
+    let head = g.head(&m);
+    let cls = yv.as_ref().map(|v| input_class(&head, v)).unwrap_or("unparsable");
+    (format!("{head}:{cls}:{kind2}"), m, y)
 }
 
 fn run_json(r: &Run) -> Value {
@@ -511,16 +695,26 @@ fn check_program(g: &Grammar, p: &P, rep: &mut Report, stats: &mut Stats) {
         Err(m) => {
             // a parser panic is C19/C30 territory; recorded, not judged here
             stats.parser_panics += 1;
-            let _ = m;
+            let key: String = format!("parser: {}", m.chars().take(70).collect::<String>());
+            if stats.panic_examples.len() < 40 && !stats.panic_examples.contains_key(&key) {
+                stats.panic_examples.insert(key, json!({"program": text, "parser_panic": m}));
+            }
             return;
         }
     };
     let env = g.has_env(p);
+    let trace = std::env::var("C23_TRACE").is_ok();
     for input in INPUTS {
+        let t0 = std::time::Instant::now();
         rep.input();
         rep.trans(2);
         match judge(&e, input.as_bytes()) {
-            Verdict::Agree => {}
+            Verdict::Agree(o) => {
+                // distinct + non-trivial: an agreed observation that is not "no output, normal end"
+                if !o.outs.is_empty() || o.term != Term::End {
+                    rep.distinct(&o);
+                }
+            }
             Verdict::Presentation(k) => {
                 if k == "number-spelling" {
                     stats.spelling += 1;
@@ -534,22 +728,34 @@ fn check_program(g: &Grammar, p: &P, rep: &mut Report, stats: &mut Stats) {
                     }
                 }
             }
-            Verdict::BothPanic => stats.both_panic += 1,
+            Verdict::BothPanic(m) => {
+                stats.both_panic += 1;
+                let key: String = m.chars().take(80).collect();
+                if stats.panic_examples.len() < 40 && !stats.panic_examples.contains_key(&key) {
+                    stats.panic_examples.insert(key, json!({"program": text, "input": input, "panic": m}));
+                }
+            }
             Verdict::Disagree(kind, f, gn) => {
                 if env {
                     stats.env_disagreements += 1;
+                    if stats.env_examples.len() < 3 {
+                        stats.env_examples.push(json!({"program": text, "input": input, "full": run_json(&f), "generic": run_json(&gn)}));
+                    }
                     continue;
                 }
                 let (sig, m, y) = signature(g, p, input, &kind);
                 let size = text.len() * 100 + input.len();
                 rep.fail(&sig, size, || {
                     json!({"kind":"pair","program":text,"input":input,"full":run_json(&f),"generic":run_json(&gn),
-                           "minimal_program":g.text(&m),"minimal_input":y,"difference":kind})
+                           "minimal_program":g.text(&m),"minimal_input":y,"difference":kind,"structure":g.to_json(p)})
                 });
             }
         }
         if !env {
             stats.judged += 1;
+        }
+        if trace && t0.elapsed().as_millis() > 150 {
+            eprintln!("SLOW {} ms: {text}   on {input}", t0.elapsed().as_millis());
         }
     }
 }
@@ -566,6 +772,8 @@ struct Stats {
     judged: u64,
     spelling_example: Option<Value>,
     key_order_example: Option<Value>,
+    panic_examples: std::collections::BTreeMap<String, Value>,
+    env_examples: Vec<Value>,
 }
 
 fn explore(ctx: &Ctx, rep: &mut Report) {
@@ -573,7 +781,6 @@ fn explore(ctx: &Ctx, rep: &mut Report) {
     let g = Grammar::new();
     let progs = programs(&g, ctx);
     let total = std::sync::Mutex::new(Stats::default());
-    let distinct_obs = std::sync::Mutex::new(std::collections::HashSet::<u64>::new());
     let r = par_range_in(ctx, "programs", progs.len() as u64, 64, |i, rep| {
         let mut st = Stats::default();
         check_program(&g, &progs[i as usize], rep, &mut st);
@@ -592,7 +799,16 @@ fn explore(ctx: &Ctx, rep: &mut Report) {
         if t.key_order_example.is_none() {
             t.key_order_example = st.key_order_example;
         }
-        let _ = &distinct_obs;
+        for (k, v) in st.panic_examples {
+            if t.panic_examples.len() < 40 {
+                t.panic_examples.entry(k).or_insert(v);
+            }
+        }
+        for v in st.env_examples {
+            if t.env_examples.len() < 10 {
+                t.env_examples.push(v);
+            }
+        }
     });
     rep.merge(r);
     let t = total.into_inner().unwrap();
@@ -608,28 +824,28 @@ fn explore(ctx: &Ctx, rep: &mut Report) {
     rep.extra.insert("pairs_judged".into(), json!(t.judged));
     rep.extra.insert("pairs_env_dependent_disagreeing_not_judged".into(), json!(t.env_disagreements));
     rep.extra.insert("pairs_both_panic_identically_not_judged".into(), json!(t.both_panic));
+    rep.extra.insert("panic_examples_for_C30".into(), json!(t.panic_examples));
+    rep.extra.insert("env_dependent_disagreement_examples".into(), json!(t.env_examples));
     rep.extra.insert("pairs_equal_values_different_number_spelling".into(), json!({"count": t.spelling, "example": t.spelling_example}));
     rep.extra.insert("pairs_equal_values_different_key_order".into(), json!({"count": t.key_order, "example": t.key_order_example}));
-    rep.mark_exhaustive("programs", "every program of the grammar x all 18 inputs");
+    rep.mark_exhaustive("programs", "every program of the grammar x all 19 inputs");
 }
 
 fn replay(case: &Value, rep: &mut Report) {
     let g = Grammar::new();
     let text = case["program"].as_str().unwrap();
     let input = case["input"].as_str().unwrap();
-    // rebuild the structured program: search the grammar for the text
-    let ctx = Ctx { tier: "thorough".into(), threads: 1, seed: 0, start: std::time::Instant::now(), wall_cap_s: 1e9, args: vec![] };
-    let p = programs(&g, &ctx).into_iter().find(|p| g.text(p) == text);
-    let Some(p) = p else {
+    let Some(p) = g.from_json(&case["structure"]) else {
         rep.fail("replay:program-not-in-grammar", 0, || case.clone());
         return;
     };
+    assert_eq!(g.text(&p), text, "recorded structure renders to the recorded program");
     let e = jq::parse(text).expect("recorded program parses");
     rep.input();
     rep.trans(2);
     if let Verdict::Disagree(kind, f, gn) = judge(&e, input.as_bytes()) {
         let (sig, m, y) = signature(&g, &p, input, &kind);
-        rep.fail(&sig, 0, || json!({"kind":"pair","program":text,"input":input,"full":run_json(&f),"generic":run_json(&gn),"minimal_program":g.text(&m),"minimal_input":y,"difference":kind}));
+        rep.fail(&sig, 0, || json!({"kind":"pair","program":text,"input":input,"full":run_json(&f),"generic":run_json(&gn),"minimal_program":g.text(&m),"minimal_input":y,"difference":kind,"structure":g.to_json(&p)}));
     }
 }
 
